@@ -29,7 +29,7 @@ MIN_COUNTERS = {'contract_evaluations': 1}
 
 _contract = {'n': 0, 'fail': [], 'known': []}
 
-KEYS = ['a', 'b', 'c', '_u', 'k1', 'x_y', 7, 0, 1, 'a.b', 'x-y']
+KEYS = ['a', 'b', 'c', '_u', 'k1', 'x_y', 7, 0, 1, 'a.b', 'x-y', -1, -3]        # (negative integers are ordinary keys of a mapping: nothing counts from the end there)
 RESERVED = ['items', 'keys', 'pop', 'update', 'ayns']        # names of class attributes: refused as new keys by design (C01), whatever the operation
 RENAME_TO = KEYS + RESERVED[:3]
 
